@@ -1,6 +1,7 @@
 //! unit: u17
 //! properties: C17
 //! note: the per-message acceptance tests of the network graph and its staleness pruning: a channel_update / node_announcement replaces stored information only with a strictly newer timestamp, an update above the channel's capacity (or above 21e6 BTC, or for another chain) is refused, and pruning drops exactly the directions older than two weeks and the channels left without a current direction
+//! trusted: R15 (deep slice): add_channel_between_nodes: the match on the channel map entry, verbatim; the map is an environment type whose entry API carries the IndexedMap/BTreeMap contract, written with Verus' mutable-reference prophecy (the entry lends the slot of the key); remove_channel_in_nodes records what it unlinks (R10: the write guard `nodes` is written as the reference it derefs to); the node-counter bookkeeping after the match is not sliced
 //! trusted: R15 (deep slices): NetworkGraph::update_channel_internal, update_node_from_announcement_intern and remove_stale_channels_and_tracking_with_time work on IndexedMaps behind RwLocks with signature checks through secp256k1; the unit extracts, on every run and verbatim, (a) the body of the closure check_update_latest, (b) the body of the closure check_msg_sanity (its two calls of check_update_latest get the message as an explicit argument), (c) the chain-hash test and the MAX_VALUE_MSAT test at the top of update_channel_internal, (d) the timestamp test of the node announcement, (e) the per-channel body of the pruning loop (`scids_to_remove.insert(*scid)` becomes setting a flag); (f) pre_channel_announcement_validation_check with the map lookup replaced by its result as a parameter (R5); (g) verify_channel_announcement / verify_node_announcement whole, with the function-local macros expanded by rule (R8): `secp_verify_sig!(ctx, m, s, k, _)` -> `match ctx.verify_ecdsa(m, s, k) { Ok(_) => {}, Err(_) => return Err(..) }` and `get_pubkey_from_node_id!(n, _)` -> the external_body pubkey_from_node_id(n) with `?`-style early return, `hash_to_message!(message_sha256d_hash(..))` -> an uninterpreted hash of the contents; verify_ecdsa is external_body over the uninterpreted sig_valid; (h) the choice of the signing node of a channel_update (`.as_slice()` dropped, R5); (i) the replace-or-refuse test of add_channel_between_nodes; (j) the recently-removed test of update_channel_from_unsigned_announcement_intern (the two tracking maps are stubs with a ghost key set); map lookups, storing the new information, removing channels from the node table and the order-independence of the whole graph are dropped and not claimed
 //! trusted: env: ChannelInfo {one_to_two, two_to_one, capacity_sats, announcement_received_time}, ChannelUpdateInfo {last_update}, UnsignedChannelUpdate {chain_hash, timestamp, channel_flags, htlc_maximum_msat}, NodeAnnouncementInfo {last_update} are field skeletons; ChainHash is an opaque identity; LightningError loses its text and action (R8)
 //! trusted: R15 (deep slices, k): node_failed_permanent: the expression choosing the other end of each of the failed node's channels and the predicate of the `retain` on that neighbour's channel list, verbatim as functions (ChannelEnds is a two-field skeleton of ChannelInfo); removing the node, its channels and emptied neighbours from the maps and recording the removals are dropped and not claimed
@@ -357,5 +358,65 @@ pub struct ChannelEnds { pub node_one: NodeId, pub node_two: NodeId }
 //@ensures P C17 the-neighbour-of-a-failed-node-loses-exactly-the-channel-it-shared-with-it
     r == (*scid != *chan_id),
 //@end
+// ---- add_channel_between_nodes: an already known channel is replaced only by an announcement that was checked against the chain ----
+pub mod replacement_rule {
+use vstd::prelude::*;
+pub struct LightningError { pub err: (), pub action: () }
+pub struct Amount { pub sat: u64 }
+pub struct ChanInfo { pub id: u64 }
+pub struct OccupiedEntry<'a> { pub slot: &'a mut ChanInfo }
+pub struct VacantEntry<'a> { pub slot: &'a mut Option<ChanInfo> }
+impl<'a> OccupiedEntry<'a> {
+    // the entry keeps lending the same slot (its final value is unchanged by these calls)
+    #[verifier::external_body] pub fn get(&mut self) -> (r: &ChanInfo) ensures *r == *old(self).slot, *final(self).slot == *old(self).slot, *final(final(self).slot) == *final(old(self).slot) { unimplemented!() }
+    #[verifier::external_body] pub fn get_mut(&mut self) -> (r: &mut ChanInfo) ensures *r == *old(self).slot, *final(self).slot == *final(r), *final(final(self).slot) == *final(old(self).slot) { unimplemented!() }
+    #[verifier::external_body] pub fn into_mut(self) -> (r: &'a mut ChanInfo) ensures *r == *old(self.slot), *final(self.slot) == *final(r) { unimplemented!() }
+}
+impl<'a> VacantEntry<'a> { #[verifier::external_body] pub fn insert(self, v: ChanInfo) -> (r: &'a mut ChanInfo) ensures *r == v, *final(self.slot) == Some(*final(r)) { unimplemented!() } }
+pub enum IndexedMapEntry<'a> { Occupied(OccupiedEntry<'a>), Vacant(VacantEntry<'a>) }
+pub struct ChannelsMap { pub m: Ghost<Map<u64, ChanInfo>> }
+impl ChannelsMap {
+    #[verifier::external_body] pub fn entry<'a>(&'a mut self, k: u64) -> (e: IndexedMapEntry<'a>)
+        ensures e is Occupied <==> old(self).m@.contains_key(k),
+            e matches IndexedMapEntry::Occupied(o) ==> *o.slot == old(self).m@[k] && final(self).m@ == old(self).m@.insert(k, *final(o.slot)),
+            e matches IndexedMapEntry::Vacant(v) ==> *v.slot is None && final(self).m@ == (match *final(v.slot) { Some(x) => old(self).m@.insert(k, x), None => old(self).m@ }),
+    { unimplemented!() }
+}
+pub struct NodesMap { pub unlinked: Ghost<Seq<(u64, u64)>> }
+pub struct Graph {}
+impl Graph {
+    // removes the channel from the channel lists of its two nodes; recorded as (scid, channel id)
+    #[verifier::external_body] pub fn remove_channel_in_nodes(&self, nodes: &mut NodesMap, chan: &&ChanInfo, short_channel_id: u64)
+        ensures final(nodes).unlinked@ == old(nodes).unlinked@.push((short_channel_id, chan.id)) { unimplemented!() }
+//@extract lightning/src/routing/gossip.rs :: impl NetworkGraph :: fn add_channel_between_nodes
+//@slice R15
+    let channel_info = match channels.entry(short_channel_id) { $arms:any }; let mut node_counter_id
+//@with
+    fn store_announced_channel(&self, channels: &mut ChannelsMap, nodes: &mut NodesMap, short_channel_id: u64, channel_info: ChanInfo, utxo_value: Option<Amount>) -> Result<(), LightningError> {
+        let ghost new_info = channel_info;
+        let channel_info = match channels.entry(short_channel_id) { $arms };
+        proof { assert(*channel_info == new_info); }
+        Ok(()) }
+//@rw R8 *
+    LightningError { err: $e:seq, action: $a:seq, }
+//@with
+    LightningError { err: (), action: () }
+//@rw R10
+    self.remove_channel_in_nodes(&mut nodes,
+//@with
+    self.remove_channel_in_nodes(nodes,
+//@ret r
+//@ensures P C17 a-channel-already-in-the-graph-is-replaced-only-by-an-announcement-checked-against-the-chain-and-then-unlinked-from-its-old-nodes-first-otherwise-the-duplicate-is-refused-and-nothing-changes
+    !old(channels).m@.contains_key(short_channel_id) ==> r is Ok && final(channels).m@ == old(channels).m@.insert(short_channel_id, channel_info) && final(nodes).unlinked@ == old(nodes).unlinked@,
+    old(channels).m@.contains_key(short_channel_id) && utxo_value is Some ==> r is Ok && final(channels).m@ == old(channels).m@.insert(short_channel_id, channel_info)
+        && final(nodes).unlinked@ == old(nodes).unlinked@.push((short_channel_id, old(channels).m@[short_channel_id].id)),
+    old(channels).m@.contains_key(short_channel_id) && utxo_value is None ==> r is Err && final(channels).m@ == old(channels).m@ && final(nodes).unlinked@ == old(nodes).unlinked@,
+//@mutant unverified_duplicate_replaces_the_stored_channel
+    if utxo_value.is_some() {
+//@with
+    if utxo_value.is_none() {
+//@end
+}
+}
 }
 fn main() {}
